@@ -458,14 +458,16 @@ def iterRemove (l : Chain) (it : Iter) (m : Mem) : Stat Ã— Option Nat Ã— Chain Ã
   let u := unlinkn l it.last m
   (.ok, some u.1, u.2.1, { index := wdec it.index, last := none, next := it.next.shiftDel it.last.pos }, u.2.2)
 
-/-- `cc_list_iter_add`: `link_after(last, new)`, `tail = new` when the cursor stood at the end -/
+/-- `cc_list_iter_add`: `link_after(last, new)`, `tail = new` exactly when the new node has no successor
+(`if (!new_node->next)`, i.e. `last` had none; defect L6: the former test `index == size` also fired for a second
+`iter_add` behind the same yielded element, which links the node *in front of* the one added before) -/
 def iterAdd (l : Chain) (it : Iter) (x : Nat) (m : Mem) : Stat Ã— Chain Ã— Iter Ã— Mem :=
   let a := m.allocT l.triple
   if !a.1 then (.errAlloc, l, it, a.2) else
   let m := a.2.check (it.last.valid l.nodes.length)
   let j := it.last.pos + 1
   let l' := l.ins j x
-  let l' := if it.index = l.size then { l' with tail := some j } else l'
+  let l' := if it.last.next l.nodes.length = none then { l' with tail := some j } else l'
   (.ok, { l' with size := l'.size + 1 },
    { index := it.index + 1, last := it.last.shiftIns j 1, next := it.next.shiftIns j 1 }, m)
 
@@ -525,7 +527,7 @@ def zipNext (l1 l2 : Chain) (z : ZipIter) (m : Mem) : Stat Ã— Option (Nat Ã— Nat
    { index := z.index + 1, last1 := z.next1, last2 := z.next2,
      next1 := z.next1.next l1.nodes.length, next2 := z.next2.next l2.nodes.length }, m)
 
-/-- `cc_list_zip_iter_add` -/
+/-- `cc_list_zip_iter_add` (`tail = new` per list exactly when the new node has no successor, as in `iterAdd`) -/
 def zipAdd (l1 l2 : Chain) (z : ZipIter) (x1 x2 : Nat) (m : Mem) : Stat Ã— Chain Ã— Chain Ã— ZipIter Ã— Mem :=
   let a1 := m.allocT l1.triple
   if !a1.1 then (.errAlloc, l1, l2, z, a1.2) else
@@ -536,8 +538,8 @@ def zipAdd (l1 l2 : Chain) (z : ZipIter) (x1 x2 : Nat) (m : Mem) : Stat Ã— Chain
   let j2 := z.last2.pos + 1
   let l1' := l1.ins j1 x1
   let l2' := l2.ins j2 x2
-  let l1' := if z.index = l1.size then { l1' with tail := some j1 } else l1'
-  let l2' := if z.index = l2.size then { l2' with tail := some j2 } else l2'
+  let l1' := if z.last1.next l1.nodes.length = none then { l1' with tail := some j1 } else l1'
+  let l2' := if z.last2.next l2.nodes.length = none then { l2' with tail := some j2 } else l2'
   (.ok, { l1' with size := l1'.size + 1 }, { l2' with size := l2'.size + 1 },
    { index := z.index + 1, last1 := z.last1.shiftIns j1 1, last2 := z.last2.shiftIns j2 1,
      next1 := z.next1.shiftIns j1 1, next2 := z.next2.shiftIns j2 1 }, m)
